@@ -1,6 +1,7 @@
 import Proofs.Lemmas.Scan
 import Proofs.Lemmas.ScanMem
 import Proofs.Lemmas.ScanApprox
+import Proofs.Lemmas.ScanRound
 /-!
 # C12 — cumulative products equal the sequential left/right fold, for every length
 
@@ -455,3 +456,46 @@ example : (scanBuf (α := List Nat) (· ++ ·) exView ((List.range 10).map fun a
     [[0], [1], [2], [3], [4], [1,5], [2,6], [3,7], [8], [9]] := by decide
 
 end PP.ScanMem
+
+/-! ### the rounded scan against the EXACT ordered product (pass 10)
+
+`cumops_approx` needs the rounded product to be `ε`-associative and Lipschitz up to `δ`. Where do those come from? From two facts
+about the exact product — it is associative and an isometry in each argument (`ExactIso`; products of unit quaternions in the
+chordal metric: `unitQuat_exactIso`) — and ONE fact about the arithmetic: the computed product is within `u` of the exact one
+(`d (fl x) x ≤ u`). `approxAssoc_of_rounding` derives `ApproxAssoc 1 (4u) (2u)`, and the scan of the ROUNDED product is then
+compared with the EXACT ordered product, which is what the property's clause is about. -/
+namespace PP.Scan
+open PP
+
+/-- **The rounded scan against the exact ordered product**, every length, every position: within
+`rounds · 2L · 6u + j·u`, `rounds = (strides L).length` (`2^rounds < 2L`). -/
+theorem cumops_rounded_vs_exact {α : Type} {op : α → α → α} {d : α → α → ℝ} (H : ExactIso op d) (fl : α → α) (u : ℝ) (hu : 0 ≤ u)
+    (hfl : ∀ x, d (fl x) x ≤ u) (L : Nat) (v : Nat → α) (j : Nat) (hj : j < L) :
+    d (cumops (rounded fl op) L v j) (seg op v 0 j) ≤ (strides L).length * (2 * L * (4 * u + 2 * u)) + j * u := by
+  have h1 := cumops_approx_nonexpansive (rounded fl op) (approxAssoc_of_rounding H fl u hu hfl) L v j hj
+  have h2 := seg_rounded_vs_exact H fl u hfl v 0 j
+  have t := H.d_tri (cumops (rounded fl op) L v j) (seg (rounded fl op) v 0 j) (seg op v 0 j)
+  linarith
+
+/-- the same for unit quaternions (`cumprod` / `cummul` on SO3): any computed product that returns a unit quaternion within
+`u` of the exact Hamilton product -/
+theorem cumops_unitQuat_rounded (fl : UQ → UQ) (u : ℝ) (hu : 0 ≤ u) (hfl : ∀ x, UQ.dist (fl x) x ≤ u)
+    (L : Nat) (v : Nat → UQ) (j : Nat) (hj : j < L) :
+    UQ.dist (cumops (rounded fl UQ.mul) L v j) (seg UQ.mul v 0 j) ≤ (strides L).length * (2 * L * (4 * u + 2 * u)) + j * u :=
+  cumops_rounded_vs_exact unitQuat_exactIso fl u hu hfl L v j hj
+
+/-- non-vacuity: a rounding map that is NOT the identity — every product is perturbed by the fixed unit quaternion
+`r₀ = (0.6, 0, 0, 0.8)`; its error is `u = d(r₀, 1)` by the isometry -/
+noncomputable def r0 : UQ := ⟨⟨0.6, 0, 0, 0.8⟩, by unfold SO3.Valid; lie_unfold; norm_num⟩
+noncomputable def uqOne : UQ := ⟨SO3one, SO3_valid_one⟩
+example (L : Nat) (v : Nat → UQ) (j : Nat) (hj : j < L) :
+    UQ.dist (cumops (rounded (fun x => UQ.mul x r0) UQ.mul) L v j) (seg UQ.mul v 0 j)
+      ≤ (strides L).length * (2 * L * (4 * UQ.dist r0 uqOne + 2 * UQ.dist r0 uqOne)) + j * UQ.dist r0 uqOne := by
+  refine cumops_unitQuat_rounded _ _ (Real.sqrt_nonneg _) ?_ L v j hj
+  intro x
+  have h := unitQuat_exactIso.isoR r0 uqOne x
+  have e : UQ.mul x uqOne = x := Subtype.ext (SO3_mul_one x.1)
+  rw [e] at h
+  exact le_of_eq h
+
+end PP.Scan
